@@ -4,7 +4,7 @@ import re
 
 from . import obs as O
 
-EV_RE = re.compile(r"^(S|X|R|E|cc|cd|cr|ck|ec|ed|er|ek)(\??)(\d+)(.*)$")
+EV_RE = re.compile(r"^(S|X|Y|R|E|cc|cd|cr|ck|ec|ed|er|ek)(\??)(\d+)(.*)$")
 PULL_RE = re.compile(r"^P(\d+):(\d+)$")
 
 
@@ -32,6 +32,7 @@ class TaskInfo:
         self.req = None
         self.S = self.X = self.R = self.E = None      # steps
         self.nX = 0
+        self.Y = []                 # steps at which the worker caught a CancelledError and went on running
         self.seq = {}               # event kind -> global sequence number of its first occurrence
         self.arg = None
         self.cc = []                # (step, r, c, e, reg)
@@ -42,7 +43,7 @@ class TaskInfo:
 
 
 def spec_of(toks):
-    return dict(mode=toks[0], swallow=toks[1] == "1", ecb=toks[2], ccb=toks[3], bad=toks[4] == "1", coro=toks[5] == "1",
+    return dict(mode=toks[0], swallow=toks[1] == "1", resume=toks[1] == "2", ecb=toks[2], ccb=toks[3], bad=toks[4] == "1", coro=toks[5] == "1",
                 hooks=toks[6])
 
 
@@ -187,7 +188,7 @@ class Story:
                 if inner.startswith("name:"):
                     # an `apply` made from user code: gated worker, no callbacks, generated name
                     self._new_req(ps, Req(len(ps.reqs), "apply", inner[5:], j, num=None, via_hook=True,
-                                          spec=dict(mode="g", swallow=False, ecb="n", ccb="n", bad=False, coro=True, hooks="-")))
+                                          spec=dict(mode="g", swallow=False, resume=False, ecb="n", ccb="n", bad=False, coro=True, hooks="-")))
                 continue
             m = EV_RE.match(e)
             if not m:
@@ -207,6 +208,8 @@ class Story:
             elif kind == "X":
                 t.X = j
                 t.nX += 1
+            elif kind == "Y":
+                t.Y.append(j)           # caught a CancelledError and went on: still running
             elif kind == "R":
                 t.R = j
             elif kind == "E":
